@@ -184,6 +184,22 @@ func (m *model) checkBuild(pkts []rtcp.Packet) error {
 					return fmt.Errorf("packet %d starts at %d and skips number %d (after the previous packet's end %d) which has a recorded arrival", pi, base, s, prevEnd)
 				}
 			}
+			// consecutive ranges: the next packet of a build starts where the previous one ended. Only a jump that a packet cannot
+			// span (its first received number lies 2^15 - 2 or more beyond the previous end) may leave numbers out.
+			if base != prevEnd {
+				firstRx := int64(-1)
+				for i := 0; i < int(w.Count); i++ {
+					if w.Symbols[i] != 0 {
+						firstRx = base + int64(i)
+
+						break
+					}
+				}
+				if firstRx < 0 || firstRx-prevEnd <= 0x7FFE {
+					return fmt.Errorf("packet %d starts at %d, the previous packet of this build ended at %d: numbers %d..%d appear in neither (first received number of this packet: %d)",
+						pi, base, prevEnd, prevEnd, base-1, firstRx)
+				}
+			}
 		}
 		t := int64(w.RefTime) * 64000
 		di := 0
